@@ -2599,6 +2599,54 @@ def stage_corr_int(ctx, env):
                 ctx.coverage["disagreements_checked"] += 1
 
 
+def stage_corr_bodycmp(ctx, env):
+    """The model's `fastCmp` against the real `term_ord.fast_compare` on monomial bodies: products of
+    1-3 atoms, the atoms being variables and compound terms chosen so that an atom and a product often
+    have the SAME size (f (f m), g m n, m - n, m ^ 2, f (g m n) ...), and the constant `one`."""
+    T = env.term
+    v = env.v
+    rng = ctx.rng("corr/bodycmp")
+    m, n, k, f, g = v["m"], v["n"], v["k"], v["f"], v["g"]
+    pool = [m, n, k, f(m), f(n), f(f(m)), f(f(k)), g(m, n), g(n, m), m - n, n - m, m ** 2, f(g(m, n)), g(f(m), n),
+            f(f(f(m))), g(m, m), T.Const("min", env.TFun(env.T["nat"], env.T["nat"], env.T["nat"]))(m, n)]
+    one = env.nat.one
+    ranks = {x: i for i, x in enumerate(env.term_ord.sorted_terms(pool + [one]))}
+
+    def body(rng):
+        if rng.random() < 0.08:
+            return one, ["num", 1]
+        fs = [rng.choice(pool) for _ in range(rng.choice([1, 1, 2, 2, 3]))]
+        t, sx = fs[0], nat_atom_sexp(fs[0], ranks)
+        for x in fs[1:]:
+            t, sx = t * x, ["mul", sx, nat_atom_sexp(x, ranks)]
+        return t, sx
+    cases, lines = [], []
+    want = ctx.scale(400, 8000)
+    tries = 0
+    while len(cases) < want and tries < 40 * want:
+        tries += 1
+        (t1, s1), (t2, s2) = body(rng), body(rng)
+        # half of the sample: an atom against a product of the same size
+        if len(cases) % 2 == 0 and not (t1.size() == t2.size() and t1.is_times() != t2.is_times()):
+            continue
+        c = env.term_ord.fast_compare(t1, t2)
+        cases.append((t1, t2, "lt" if c < 0 else "gt" if c > 0 else "eq"))
+        lines.append(sexp.dumps(["bodycmp", ranks[one], s1, s2]))
+    out = ctx.lean_driver(EXE, lines) if lines else []
+    if out is None:
+        ctx.broken("correspondence:c10:driver", "model driver unavailable")
+        return
+    nd = 0
+    for (t1, t2, impl), mo in zip(cases, out):
+        same_size = t1.size() == t2.size()
+        mixed = same_size and (t1.is_times() != t2.is_times())
+        ctx.count("corr:bodycmp:%s%s" % ("agree" if impl == mo else "DISAGREE", ":atom-vs-product-same-size" if mixed else ""))
+        if impl != mo:
+            nd += 1
+            if nd <= 3:
+                ctx.broken("correspondence:c10:bodycmp", "fast_compare(%s, %s) = %s, model %s" % (t1, t2, impl, mo))
+
+
 # ====================================================================== entry points
 def run(ctx):
     ctx.coverage["rule"] = (
@@ -2639,6 +2687,7 @@ def run(ctx):
     stage_corr_conv(ctx, env)
     stage_corr_poly(ctx, env)
     stage_corr_int(ctx, env)
+    stage_corr_bodycmp(ctx, env)
     for s in (stage_corr_natnorm,):
         s(ctx, env)
     ctx.log("correspondence done")
@@ -2654,7 +2703,18 @@ def nexp_of(env, t, ranks):
         return ["mul", nexp_of(env, t.arg1, ranks), nexp_of(env, t.arg, ranks)]
     if t.is_comb("Suc", 1):
         return ["suc", nexp_of(env, t.arg, ranks)]
-    return ["at", ranks[t], t.size()]
+    return nat_atom_sexp(t, ranks)
+
+
+def nat_atom_sexp(t, ranks):
+    """(at rank size fsz hgt): what fast_compare needs of an atom against a product of the same size."""
+    from kernel import term as _T
+    from kernel import term_ord as _O
+    fsz = t.fun.size() if t.is_comb() else 1
+    hgt = False
+    if t.is_comb() and t.fun.is_comb():
+        hgt = _O.fast_compare(t.fun.fun, _T.times(t.get_type())) > 0
+    return ["at", ranks[t], t.size(), fsz, bool(hgt)]
 
 
 def nat_atoms(t, acc):
@@ -2685,6 +2745,19 @@ def stage_corr_natnorm(ctx, env):
     for _ in range(n):
         a = gen_arith(rng, "nat", rng.randint(0, 4), ops="+++***S", atoms=True)
         terms.append(to_term(env, a, "nat"))
+    # compound atoms whose size ties with products (f (f m), g m n, m - n ...): the atom-against-product
+    # branch of fast_compare
+    v = env.v
+    big = [v["m"], v["n"], v["f"](v["f"](v["m"])), v["g"](v["m"], v["n"]), v["m"] - v["n"], v["f"](v["m"]),
+           v["g"](v["n"], v["n"]), v["f"](v["g"](v["m"], v["n"]))]
+
+    def rnd(d):
+        if d <= 0 or rng.random() < 0.3:
+            return rng.choice(big) if rng.random() < 0.85 else env.term.Nat(rng.choice([0, 1, 2, 3]))
+        a, b = rnd(d - 1), rnd(d - 1)
+        return a + b if rng.random() < 0.5 else a * b
+    for _ in range(ctx.scale(120, 2500)):
+        terms.append(rnd(rng.randint(1, 3)))
     for t in terms:
         atoms = nat_atoms(t, set())
         ranked = env.term_ord.sorted_terms(list(atoms) + [one])
@@ -2791,9 +2864,14 @@ MANIFEST = {
             "poly_zero_of_eval_zero. "
             "(6) The nat Conv normaliser data.nat.norm_full (the one nat_norm uses; not built on util/poly.py): norm_sound, "
             "norm_sound_int, norm_full_poly_invariant (the normal form has the identical polynomial as the term), "
-            "norm_full_eq_poly_partial (same normal form => same polynomial), norm_idem_partial, norm_canonical_partial. NOT "
-            "proved: same polynomial => same normal form (canonicity) and isNF(norm t). Truncated subtraction, powers and "
-            "applications are atoms of this normaliser. "
+            "norm_full_eq_poly_partial (same normal form => same polynomial), norm_nf_closed (the result ALWAYS has the "
+            "normal-form shape isNF: norm_add_monomial / norm_add_polynomial / norm_mult_atom / norm_mult_monomial / "
+            "norm_mult_poly_monomial / norm_mult_polynomial preserve it), norm_idem (normalising a normal form changes "
+            "nothing, for every term), norm_fixed_of_isNF, norm_canonical_partial (Suc/x+0/x*0 only). The model's fastCmp now "
+            "decides an atom against a product of the same size as fast_compare does (atom shapes; compared with the real "
+            "function by the bodycmp stream) and is proved antisymmetric with eq only on identical bodies. NOT proved: same "
+            "polynomial => same normal form (canonicity); what remains is injectivity of normal-form trees -> polynomial. "
+            "Truncated subtraction, powers and applications are atoms of this normaliser. "
             "(7) The integer Conv normaliser (simp_full, int_norm_conv, int_norm_eq) is modelled (IntModel.lean) and compared tree "
             "for tree with the real conversions' right-hand sides: int_norm_sound (value preserved in Z), int_norm_eq_sound (the "
             "returned lhs = 0 is equivalent to a = b), int_norm_canonical_partial (normal form has the polynomial of the term; same "
